@@ -7,7 +7,7 @@ open Lean
 def dispatch (j : Json) : Json :=
   match (j.getObjValAs? String "op").toOption.getD "" with
   | "tools" => Ptera.Driver.Tools.handle j
-  | "lex" | "ptree" | "parse" | "select0" => Ptera.Driver.Selector.handle j
+  | "lex" | "ptree" | "parse" | "select0" | "hashvar" => Ptera.Driver.Selector.handle j
   | "handlers" => Ptera.Driver.Handlers.handle j
   | "tagmatch" => Ptera.Driver.Handlers.handleTag j
   | "ping" => Json.mkObj [("ok", "pong")]
